@@ -90,6 +90,10 @@ class FV:
         for cname, cval in f.module.assigns.items():
             if isinstance(cval, ast.Constant) and isinstance(cval.value, (str, int, float)) and not isinstance(cval.value, bool):
                 self.res.module_consts[cname] = cval
+            elif isinstance(cval, (ast.Set, ast.Tuple, ast.List)) and cval.elts and len(cval.elts) <= 12 and all(
+                    isinstance(x, ast.Constant) and isinstance(x.value, (str, int, float)) and not isinstance(x.value, bool) for x in cval.elts):
+                # a small literal collection of constants (the set of accepted mode names / scheme numbers)
+                self.res.module_consts[cname] = cval
         for n in self.cfg.nodes:
             for r in node_roots(n):
                 for sub in own_walk(r):
@@ -598,7 +602,27 @@ class FV:
                 out.setdefault("*" + a.vararg.arg, arg)
         for kw in cs.call.keywords:
             if kw.arg is None:
-                out["**"] = kw.value
+                # **d with d = dict(k=v, ...) / {"k": v, ...} (a single definition): the same as writing the keywords out.
+                # The values are evaluated where the dict is built; they are handed out as expressions of this call site only
+                # when they are plain names / attributes that have not been re-bound in between.
+                raw, at = self.def_expr(kw.value, cs.node)
+                items = None
+                if isinstance(raw, ast.Call) and isinstance(raw.func, ast.Name) and raw.func.id == "dict" and not raw.args and all(k.arg for k in raw.keywords):
+                    items = [(k.arg, k.value) for k in raw.keywords]
+                elif isinstance(raw, ast.Dict) and all(isinstance(k, ast.Constant) and isinstance(k.value, str) for k in raw.keys):
+                    items = [(k.value, v) for k, v in zip(raw.keys, raw.values)]
+                stable = items is not None
+                if stable:
+                    rd = self.cfg.reaching()
+                    for _k, v in items:
+                        for x in ast.walk(v):
+                            if isinstance(x, ast.Name) and rd[at].get(x.id, frozenset()) != rd[cs.node].get(x.id, frozenset()):
+                                stable = False
+                if stable:
+                    for k_, v in items:
+                        out.setdefault(k_, v)
+                else:
+                    out["**"] = kw.value
             else:
                 out[kw.arg] = kw.value
         return out
